@@ -18,12 +18,16 @@ import shutil
 RULE = (
     "each run draws (from one tape) a world of mutually consistent pipeline objects (baits with "
     "accession-list labels incl. length ties, access, target/antitarget coverages, reference, .cnr, "
-    ".cns, shared filter/stat lists, chrom-size dict) and a history of 1-4 operations from "
+    ".cns, a VariantArray, shared filter/stat/ignore lists, combine dicts, chrom-size dict) and a history "
+    "of 1-4 operations from "
     "{target, antitarget, fix, segment(each method; processes in 1,2,3,16 under SimPool), segmetrics, "
     "call(each method, shared filter lists), genemetrics, breaks, bintest, metrics, export bed/vcf/seg/"
     "theta, center_all on a copy, merge/flatten/subtract/intersection/subdivide/resize_ranges, by_arm/"
-    "by_gene, shuffle+sort, write}; arguments are taken by reference from the world (results re-enter "
-    "it); between steps the global RNGs may be reseeded/advanced and a step may be repeated. "
+    "by_gene, shuffle+sort, further CopyNumArray / range-query / VariantArray methods, write}; arguments "
+    "are taken by reference from the world (results re-enter it); between steps the global RNGs may be "
+    "reseeded/advanced and a step may be repeated; every stochastic step (and a third of the others) is "
+    "echoed at once under a re-perturbed RNG state; every history is re-executed under another "
+    "PYTHONHASHSEED. "
     "Non-trivial = history has >= 2 steps, or a step ran under a pool with > 1 task, or the RNG was "
     "perturbed before a stochastic step, or a step consumed a derived object. Distinct = distinct "
     "(operation sequence with parameter classes, world digest, pool interleaving hashes) tuples, "
@@ -39,8 +43,8 @@ COMPONENTS = {
                   "between steps and at worker start", "operation history and argument aliasing",
                   "crash (before/after) and ENOSPC/EIO/EACCES at every interposed FS call of the writer",
                   "torn tail of a file open at crash time"],
-    "stubbed_or_absent": ["Rscript methods (cbs, flasso)", "VariantArray arguments (vcf-driven baf) not "
-                          "generated", "power-loss durability (cnvkit never fsyncs; not claimed)"],
+    "stubbed_or_absent": ["Rscript methods (cbs, flasso)", "VCF files (the VariantArray is built in "
+                          "memory, not parsed)", "power-loss durability (cnvkit never fsyncs; not claimed)"],
 }
 ASSUMPTIONS = [
     "reference model = the same operation evaluated in a pristine forked process on fresh copies of "
